@@ -230,7 +230,8 @@ def first_order_match(pat, t, inst=None):
                 except TypeMatchException:
                     raise MatchException(trace)
                 T = pat.var_T.subst(inst.tyinst)
-                inst.abs_name_inst[pat.var_name] = t.var_name
+                if pat.var_name not in inst.abs_name_inst:
+                    inst.abs_name_inst[pat.var_name] = t.var_name
 
                 # The new variable must also be distinct from the variables in
                 # the terms already assigned.
